@@ -626,12 +626,17 @@ func (w *World) jsonTables(p *packages.Package) (map[string]map[string]jRow, map
 	return out, assumed, ""
 }
 
-var refJSONCache *packages.Package
+var refCache = map[string]*packages.Package{}
 
 // loadRefJSON loads encoding/json of the toolchain that builds /repo (syntax + types).
 func (w *World) loadRefJSON(goroot string) (*packages.Package, error) {
-	if refJSONCache != nil && goroot == "" {
-		return refJSONCache, nil
+	return w.loadRef("encoding/json")
+}
+
+// loadRef loads a standard-library package of the toolchain that builds /repo.
+func (w *World) loadRef(path string) (*packages.Package, error) {
+	if p, ok := refCache[path]; ok {
+		return p, nil
 	}
 	env := []string{}
 	for _, e := range os.Environ() {
@@ -648,13 +653,13 @@ func (w *World) loadRefJSON(goroot string) (*packages.Package, error) {
 		Env:  env,
 		Fset: w.Fset,
 	}
-	pkgs, err := packages.Load(cfg, "encoding/json")
+	pkgs, err := packages.Load(cfg, path)
 	if err != nil {
 		return nil, err
 	}
 	if len(pkgs) != 1 || len(pkgs[0].Errors) > 0 || pkgs[0].TypesInfo == nil {
-		return nil, fmt.Errorf("cannot load encoding/json: %v", pkgs)
+		return nil, fmt.Errorf("cannot load %s: %v", path, pkgs)
 	}
-	refJSONCache = pkgs[0]
+	refCache[path] = pkgs[0]
 	return pkgs[0], nil
 }
